@@ -80,15 +80,28 @@ def gen_family(rng, size=3, depth=2, special=0.12):
     return fam
 
 
+INPUTS = [5, "s", None, [1], True, 0, "", False, [], "ab"]
+
+
+def input_taking(rng, q):
+    """variant of the query whose first action consumes the injected input"""
+    parts = q.split("/")
+    parts[0] = rng.choice(["tnum", "ident", "cat-x", "add-1", "tnum", "bo"])
+    return "/".join(parts)
+
+
 def gen_history(rng, fam, length, plain_only=False):
+    fam = list(fam)
+    if not plain_only:
+        fam += [input_taking(rng, rng.choice(fam)) for _ in range(2)]
     ops = []
     for _ in range(length):
         q = rng.choice(fam)
         r = rng.random()
-        if plain_only or r < 0.62:
+        if plain_only or r < 0.58:
             ops.append(("E", q))
         elif r < 0.72:
-            ops.append(("V", q, rng.choice([5, "s", None, [1], True]), rng.random() < 0.5))
+            ops.append(("V", q, rng.choice(INPUTS), rng.random() < 0.4))
         elif r < 0.80:
             ops.append(("XL", q, [rng.choice(["x", "7", 3]) for _ in range(rng.randint(0, 2))]))
         elif r < 0.86:
@@ -98,6 +111,20 @@ def gen_history(rng, fam, length, plain_only=False):
         else:
             ops.append(("C",))
     return ops
+
+
+def rtq_ambiguous(q):
+    """the text reads as `resource_path/segment_with_header` at top level (parse() prefers resource_transform_query) but as a
+    transformation inside a link (parse_query): the C02 known finding 'rtq-capture' seen from the cache, which keys both readings
+    by the same text"""
+    import liquer.parser as P
+    import wire
+    try:
+        a = P.parse(q)
+        b = P.parse_query.parseString(q, True)[0]
+    except Exception:
+        return False
+    return wire.ser(a, pos=False) != wire.ser(b, pos=False)
 
 
 def canonical(q):
